@@ -21,7 +21,7 @@ RULE = (
     "(x*1.37+0.11) leaves every output entry that is not allowed to depend on it bit-identical, on the compiled "
     "function and on the NumPy step. Non-trivial = >=3 links (so pairs at graph distance >=2 exist). Distinct = SHA-1."
 )
-BUDGET = {"quick": {"examples": 150, "shards": 4}, "thorough": {"fuzz_runs": 3000, "examples": 2500, "shards": 16}}
+BUDGET = {"quick": {"examples": 250, "shards": 4}, "thorough": {"fuzz_runs": 3000, "examples": 2500, "shards": 16}}
 EXPECTED_LABELS = ("engine:SX", "engine:MX", "merge", "bifurcation", "interior-ramp", "delta", "phi", "vsl:some", "origin:main",
                    "dest:cong", "cycle", "opts")
 ASSUMPTIONS = ["allowed relation lib/deps.py is the property's list of permitted influences",
